@@ -9,7 +9,11 @@ import (
 
 type xof struct {
 	impl blake2b.XOF
-	seed []byte
+	// seedKey and seed are the keyed part and the absorbed part of the seed
+	// given to New. Both are retained so that Reset can rebuild the initial
+	// state even after Reseed has replaced impl by a differently keyed XOF.
+	seedKey []byte
+	seed    []byte
 	// key is here to not make excess garbage during repeated calls
 	// to XORKeyStream.
 	key []byte
@@ -34,10 +38,12 @@ func New(seed []byte) kyber.XOF {
 		panic("blake2b.XOF.Write should not return error: " + err.Error())
 	}
 
+	keyCopy := make([]byte, len(seed1))
+	copy(keyCopy, seed1)
 	seedCopy := make([]byte, len(seed2))
 	copy(seedCopy, seed2)
 
-	return &xof{impl: b, seed: seedCopy}
+	return &xof{impl: b, seedKey: keyCopy, seed: seedCopy}
 }
 
 func (x *xof) Clone() kyber.XOF {
@@ -74,8 +80,14 @@ func (x *xof) Reseed() {
 }
 
 func (x *xof) Reset() {
-	x.impl.Reset()
-	_, _ = x.impl.Write(x.seed)
+	// impl.Reset() would keep the key of the current impl, which after a
+	// Reseed is no longer the key New was given.
+	b, err := blake2b.NewXOF(blake2b.OutputLengthUnknown, x.seedKey)
+	if err != nil {
+		panic("blake2b.NewXOF should not return error: " + err.Error())
+	}
+	_, _ = b.Write(x.seed)
+	x.impl = b
 }
 
 func (x *xof) XORKeyStream(dst, src []byte) {
